@@ -197,6 +197,8 @@ def main(run, tier):
               'calmjs.parse.rules', 'calmjs.parse.handlers.core', 'calmjs.parse.ruletypes'):
         run.function(f, scratch.sha256_file(scratch.module_path(f))[:16])
     run.floor = 150
+    from . import printfwd
+    printfwd.add(run, tier)
     total = 0
     for prod in g.productions:
         runs, out = check_production(g, shapes, pr, prod)
